@@ -200,8 +200,10 @@ class Scenario(object):
         self.keep = bool(tape.draw(2))
         self.data_extractor = tape.draw(3) == 2
         self.jitter = tape.choice([0, 0, 4])
-        self.queue_delay = tape.choice([0.0, 0.0, 0.01, 0.4])
-        self.slow_start = tape.choice([0.0, 0.0, 0.7])
+        # environment delays stay well inside the smallest timeout (1 s): a healthy replay that is slower than the
+        # timeout is legitimately reported as a timeout and would say nothing about attribution
+        self.queue_delay = tape.choice([0.0, 0.0, 0.01, 0.1])
+        self.slow_start = tape.choice([0.0, 0.0, 0.25])
         self.preempt = tape.choice([0.0, 0.0, 0.05, 0.3])
         self.fault_rate = tape.choice([0, 1, 2, 4])          # out of 8
         self.duplicates = tape.draw(5) == 4
@@ -238,6 +240,7 @@ class Outcome(object):
         self.alive_after_grace = None
         self.finished = False
         self.consumer_error = None
+        self.killed_when = None
 
 
 def run_scenario(run, tape, sc):
@@ -274,6 +277,7 @@ def run_scenario(run, tape, sc):
                     sim.sleep(0.01)
                 live = [p for p in mp.processes if p.alive_quiet()]
                 if live and not out.finished:
+                    out.killed_when = len(out.comparisons)      # index of the comparison that meets the dead worker
                     run.fault('worker_dies_idle')
                     live[-1].killed_by = 'external'
                     live[-1].kill()
